@@ -82,6 +82,9 @@ def run(repo, rep):
     rep.rule('C12.E4', 'every path through the last-resort handler of run indicates an abort, releases the transport, '
              'sets the stopped flag and ends without re-raising', 1)
     rep.rule('C12.E5', 'every blocking call reachable from the loop is bounded by a timeout', 1)
+    rep.rule('C12.E7', 'in the context its cell runs in (kind of the current primitive, transport present or already released) no '
+             'action raises anything but a transport error: an AttributeError / TypeError from using a released transport or '
+             'an absent primitive would end the provider loop through the last-resort handler on an input a peer can produce', 1)
 
     c, o, prod_sets, cell_raises, decode_set = escape_analysis(repo, model, pm)
     runf = pm.method('run')
@@ -139,6 +142,16 @@ def run(repo, rep):
                   '%s(): a failing DIMSE reassembly does not propagate out of the action' % meth,
                   '%s(): DIMSEDecoder.process may raise on malformed P-DATA (%s) and nothing in the action catches it; '
                   'the exception leaves action() instead of leading to AA-8' % (meth, ', '.join(decode_exc)))
+
+    # E7 ---------------------------------------------------------------------
+    p7 = []
+    for (e, s), d in sorted(cell_raises.items()):
+        for exc, meths in sorted(d.items()):
+            if exc in ('OSError',) or ((e, s) in ((10, 6), (10, 7)) and exc == 'Exception'):
+                continue      # transport failures are absorbed by run; reassembly failures are E2's
+            p7.append('%s: %s() raises %s (transport %s)' % (cell_key(e, s), '/'.join(sorted(meths)), exc, cell_context(e, s)[1]))
+    rep.check(not p7, 'C12.E7', 'fsm:StateMachine.transition_table:action-errors', model.sm.loc(),
+              'no action raises a non-transport error in its cell context (%d cells)' % len(cell_raises), '; '.join(p7[:6]))
 
     # E3 ---------------------------------------------------------------------
     for (e, s), action_id in sorted(ps3_8.TABLE.items()):
